@@ -877,6 +877,7 @@ class EmitAnalysis:
             fin = norm(kw["finalizer"]) if "finalizer" in kw else None
             # a loop context made by the helper takes over the labels written before the loop
             c = CTX(e.lineno, is_loop, "label" in kw or fn == "self._new_loop_context", items, is_try, fin)
+            c.ctor = e  # the construction itself, for analyses that rebuild the context with all of its fields
             st.ctxs.append(c)
             return c
         if fn == "self._emit_leave_contexts":
